@@ -160,10 +160,13 @@ def run_case(case):
     spec, info, base_flat = base(name)
     mode = case["mode"]
     changes = {}
-    if mode in ("blank-one", "blank-subset"):
+    if mode in ("blank-one", "blank-subset", "blank-group"):
         tg = targets(name, "blank")
         if mode == "blank-one":
             picked = [tg[case["index"]]]
+        elif mode == "blank-group":
+            # every value field under one path prefix: a whole array element / sub-record is blank
+            picked = [t for t in tg if t[0] == case["kind"] and (t[3].path + "/").startswith(case["prefix"] + "/")]
         else:
             rng = random.Random(case["sseed"])
             picked = [t for t in tg if rng.random() < case["fraction"]]
@@ -299,8 +302,40 @@ def enum_cases(tier):
                     if leaf.codec == "A-complex":
                         yield {"base": name, "mode": mode, "index": index, "half": "real"}
                         yield {"base": name, "mode": mode, "index": index, "half": "imag"}
+        for kind, prefix in group_prefixes(name, tier):
+            yield {"base": name, "mode": "blank-group", "kind": kind, "prefix": prefix}
         for sseed in range(4 if tier == "quick" else 40):
             yield {"base": name, "mode": "pad-all", "sseed": sseed, "style": ["text", "numbers", None, None][sseed % 4]}
+
+
+def group_prefixes(name, tier):
+    """(file kind, path prefix) of every array element / sub-record that holds >= 2 value fields;
+    quick: the first and the last element of every array, thorough: all of them"""
+    counts = {}
+    for kind, k, i, leaf in targets(name, "blank"):
+        if kind not in ("leader", "volume"):
+            continue
+        parts = leaf.path.split("/")
+        for depth in range(1, len(parts)):
+            key = (kind, "/".join(parts[:depth]))
+            counts[key] = counts.get(key, 0) + 1
+    prefixes = sorted(k for k, n in counts.items() if n >= 2)
+    if tier != "quick":
+        return prefixes
+    keep = []
+    by_parent = {}
+    for kind, prefix in prefixes:
+        head, _, last = prefix.rpartition("/")
+        if last.isdigit():
+            by_parent.setdefault((kind, head), []).append(int(last))
+        else:
+            keep.append((kind, prefix))
+    for (kind, head), idxs in by_parent.items():
+        for i in sorted({min(idxs), max(idxs), max(idxs) - 1} & set(idxs)):
+            keep.append((kind, f"{head}/{i}"))
+        if len(idxs) > 3:
+            keep.append((kind, f"{head}/{sorted(idxs)[len(idxs) // 2]}"))
+    return sorted(set(keep))
 
 
 def byte_cases():
@@ -336,7 +371,7 @@ def classify(case):
 
 LEVEL_TEXT = (
     "Metamorphic + model-based testing over the layout tables: every nullable field blanked (full "
-    "model comparison of the variant), every padding area rewritten (tree must be identical), "
+    "model comparison of the variant), every array element / sub-record blanked as a whole, every padding area rewritten (tree must be identical), "
     "random subsets, and in the thorough tier a byte-by-byte influence map of the leader and a "
     "line prefix. Enumerations are exhaustive over the tables for the two base products."
 )
